@@ -34,6 +34,7 @@ def plan(tier, seed):
     specs.append({"kind": "gnupg_hist", "count": 2 if q else 20, "shim": True})
     specs.append({"kind": "values", "count": 300 if q else 8000})
     specs.append({"kind": "same_file", "count": 30 if q else 600})
+    specs.append({"kind": "cli_session", "count": 12 if q else 300})
     return specs
 
 
@@ -425,7 +426,78 @@ def run_values(spec, rec, lib):
             rec.count("value_roundtrips")
 
 
+def run_cli_session(spec, rec, lib):
+    """the interactive modify-metadata subcommand driven by a scripted stdin: load a stored signed file, add one or more
+    signatures in ONE session (raw keys), threshold edits, write to a new file.  Earlier entries must survive, the written
+    file is canonical and the verdict panel only grows."""
+    import builtins
+
+    rng = random.Random(spec["seed"])
+    C = lib.common
+    d = spec["scratch"]
+    for n in range(spec["count"]):
+        keys = [gkeys.key(i) for i in rng.sample(range(6), 4)]
+        first, adders = keys[0], keys[1:1 + rng.randint(1, 3)]
+        md = gmd.root_md(rng.randint(1, 9), keys, rng.randint(1, 3), [gkeys.key(7)], 1) if rng.random() < 0.7 else \
+            gmd.delegating("key_mgr", {"pkg_mgr": gmd.delegation(keys[:2], 1)})
+        env = gmd.sign_env(gmd.envelope(md), [first], False, rng)
+        if rng.random() < 0.4:
+            jk, jv = "%064x" % rng.getrandbits(256), {"signature": "%0128x" % rng.getrandbits(512)}
+            env["signatures"][jk] = jv
+        src, dst = os.path.join(d, "in%d.json" % n), os.path.join(d, "out%d.json" % n)
+        with open(src, "wb") as f:
+            f.write(canonjson.canon(env))
+        script = []
+        for k in adders:
+            if rng.random() < 0.3:
+                script += ["4"]  # a no-op menu entry between the operations
+            script += ["2", rng.choice([k.seed.hex(), k.seed.hex().upper(), " ".join(k.seed.hex()[i:i + 8] for i in range(0, 64, 8))])]
+        script += ["0", dst]
+        feed = list(script)
+
+        def fake_input(prompt=""):
+            if not feed:
+                raise EOFError("script exhausted")
+            return feed.pop(0)
+
+        real_input = builtins.input
+        builtins.input = fake_input
+        try:
+            o = boundary.call(lib, lib.cli.cli, ["modify-metadata", src])
+        finally:
+            builtins.input = real_input
+        rec.case("cli_session|%d|%s" % (len(adders), md["type"]))
+        rec.count("cli_sessions")
+        case = {"kind": "cli_session", "script": script, "stored": env}
+        if not o.accepted:
+            rec.violation(boundary.mechanism("cli-session", "modify-metadata", "return", o), "scripted session failed: %s" % (o.msg or "")[:120], case)
+            continue
+        if not os.path.exists(dst):
+            rec.violation("cli-session/modify-metadata/nothing-written", "session ended without writing the file", case)
+            continue
+        fb = open(dst, "rb").read()
+        got = json.loads(fb)
+        data = canonjson.canon(md)
+        want = copy.deepcopy(env["signatures"])
+        for k in adders:
+            want[k.hex] = {"signature": ed25519.sign(k.seed, data).hex()}
+        if fb != canonjson.canon(got):
+            rec.violation("file-bytes/modify-metadata/not-canonical", "file written by the session is not canonical", case)
+        elif boundary.value_fingerprint(got.get("signed")) != boundary.value_fingerprint(md):
+            rec.violation("cli-session/modify-metadata/payload-changed", "signed part changed although nothing was edited", case)
+        elif boundary.value_fingerprint(got.get("signatures")) != boundary.value_fingerprint(want):
+            missing = sorted(set(want) - set(got.get("signatures", {})))
+            rec.violation("add-signature/modify-metadata/earlier-entry-altered-or-dropped" if missing else "add-signature/modify-metadata/entries-differ",
+                          "after adding %d signature(s) in one session the stored file's signature map is not {earlier entries + the new ones} "
+                          "(%d expected entries missing)" % (len(adders), len(missing)), case)
+        else:
+            rec.count("cli_session_signature_maps_ok")
+    rec.sample({"cli_session": "modify-metadata with scripted stdin: add 1-3 signatures in one session, write"})
+
+
 def run_shard(spec, rec, lib):
+    if spec["kind"] == "cli_session":
+        return run_cli_session(spec, rec, lib)
     {"hist": run_hist, "repodata": run_repodata, "gnupg_hist": run_gnupg_hist, "values": run_values,
      "same_file": run_same_file}[spec["kind"]](spec, rec, lib)
 
